@@ -7,7 +7,9 @@ MANIFEST = dict(
           "RBInv (black root, no red node with a red child, equal black height on every path, keys strictly ascending, size = node "
           "count) holds after every history of Add/Delete/Set (insert fix-up and all delete fix-up cases incl. red sibling, "
           "successor splice, phantom leaf); RBInv implies height <= 2*log2(n+1); the descent of find/insert/delete makes at most "
-          "height comparator calls. Tied to /repo on every run: shape/colour dump equality of model and real tree after every call, "
+          "height comparator calls; TreeSet, LinkedMap and MultiMap keep the invariant of their index tree and stay within the bound after "
+          "every history from their constructors, the descents of addNode/Delete instrumented with one tick per comparator call "
+          "return ins/del and cmpCount (Props/C02Rev.lean). Tied to /repo on every run: shape/colour dump equality of model and real tree after every call, "
           "an invariant audit executed on the real tree (incl. parent links), and the measured comparator-call count compared with "
           "the model's count exactly and with the bound."),
     note=COMMON_NOTE + " Parent pointers do not exist in the functional model: their consistency is established by the audit "
